@@ -357,12 +357,15 @@ also('C20', 'memo keys of index selections are never frozensets (FS1); a plain r
 
 # ---- clauses added with the round-5 rules
 also('C01', 'a buffer allocated as (a, b, ..) is never re-read as (b, a, ..) through reshape (RT1); no hidden-eps normalize helper in a trivialization map (HE1).')
+also('C02', 'the Cayley chart is C^order for every order >= 1 (W10); a triu / tril split of a parameter matrix drops no diagonal (W11); no forward map rotates away the phase '
+            'angle of a parameter-derived value (W8).')
+also('C06', 'a state argument of the entanglement criteria is never Hermitised with its bare transpose (HM5).')
 also('C03', 'a memo in a local dict inside a loop is keyed on every attribute of the loop variable its value reads (LM1: one placeholder shared by gates of different types); '
             'set-typed parameters become sequences only through sorted() (SO2); the image buffer of to_unitary is complex by construction (U1).')
 also('C04', 'no backward method chooses its formula by array_equal / allclose / count_nonzero of an operator (A12); no divided difference with the pairwise difference of one '
             'array with itself as denominator outside where() (SD1: degenerate spectra).')
 also('C05', 'no in-place floating-point update of a plain copy of an input (DT10: integer-typed states); partial transposes of the irrep blocks factorise with dimA first (P2); '
-            'eigenvectors are taken as columns (EV1 over the entangle modules).')
+            'eigenvectors are taken as columns (EV1 over the entangle modules); a state argument is never combined with its bare transpose (HM5).')
 also('C07', 'the Clifford export appends one state-vector gate per recorded gate and never fuses by multiplying into an earlier gate (H10).')
 also('C08', 'an xor-fold parity covers the whole index word (PAR1); the single-item flag is read before the flattening (ST3); every module-level memo is keyed on all inputs '
             'of the stored value, control dependences included (MC1: with_sign).')
